@@ -352,6 +352,17 @@ func checkC07Sequential(r *run, c *SeqSweep) (CaseInfo, error) {
 	if ci.Nontrivial {
 		ci.class("sweep-wraps")
 	}
+	// the same sweep on a second sequencer whose RollOverCount is read only at the very end (an application that
+	// looks at the count once per report interval): the count does not depend on how often it is read
+	if c.Steps <= 1<<20 {
+		quiet := rtp.NewFixedSequencer(c.Start)
+		for i := 0; i < c.Steps; i++ {
+			quiet.NextSequenceNumber()
+		}
+		if roc := quiet.RollOverCount(); roc != zeros {
+			return ci, failf("fixed sequencer(%d): RollOverCount read once after %d calls = %d, %d zeros were handed out (a sequencer read after every call reports %d)", c.Start, c.Steps, roc, zeros, zeros)
+		}
+	}
 
 	return ci, nil
 }
@@ -443,7 +454,7 @@ func selfTestChecker() error {
 	return nil
 }
 
-const ruleC07 = "concurrent: rapid draws a plan (start value biased to 0,1,65534,65535; 2-16 goroutines; 70k-400k operations so that the value wraps 1-6 times; RollOverCount read mix; Gosched pattern; GOMAXPROCS 2/4/16); every operation is recorded with invocation/response stamps from one atomic counter and the complete history is decided by an exact linearizability checker for the counter specification (greedy with exchange argument, self-tested on hand-made illegal histories), plus multiset-of-values check; half of the shards run under the Go race detector. wrapburst: plans that put 2-16 goroutines x 2-24 calls (Next alternating with RollOverCount) right around the 65535->0 wrap, each repeated for 600 (thorough 3000) trials on fresh sequencers, every trial's history decided by the same checker. sequential: fixed sequencers stepped through two wraps from boundary/drawn starts (thorough: all 65536 starts), RollOverCount = zeros issued after every call; NewRandomSequencer first value < 2^15, every thousandth one stepped through two wraps. viapacketizer: a fixed sequencer (start biased to the wrap) driven by a Packetizer through 1-12 Packetize/GeneratePadding calls of 1-8 packets: consecutive numbers on the packets, RollOverCount = zeros handed out after every call. packetizerconcurrent: a Packetizer and 1-8 goroutines draw 50-400 values each from one fixed sequencer at the same time (60 trials per plan, 10 under the race detector): every value unique, consecutive from the start, RollOverCount = zeros. randomconcurrent: 2-16 goroutines make the very first 1-100 calls each on one fresh random sequencer together (300 trials per plan, 40 under the race detector): values handed out are min..min+N-1 without duplicate or gap, increasing per goroutine, min < 2^15, RollOverCount 0. Non-trivial = history with overlapping operations of different goroutines and >=1 wrap, or a sweep that wraps; distinct = FNV-64 of the plan"
+const ruleC07 = "concurrent: rapid draws a plan (start value biased to 0,1,65534,65535; 2-16 goroutines; 70k-400k operations so that the value wraps 1-6 times; RollOverCount read mix; Gosched pattern; GOMAXPROCS 2/4/16); every operation is recorded with invocation/response stamps from one atomic counter and the complete history is decided by an exact linearizability checker for the counter specification (greedy with exchange argument, self-tested on hand-made illegal histories), plus multiset-of-values check; half of the shards run under the Go race detector. wrapburst: plans that put 2-16 goroutines x 2-24 calls (Next alternating with RollOverCount) right around the 65535->0 wrap, each repeated for 600 (thorough 3000) trials on fresh sequencers, every trial's history decided by the same checker. sequential: fixed sequencers stepped through two wraps from boundary/drawn starts (thorough: all 65536 starts), RollOverCount = zeros issued after every call, and on a second sequencer read only once at the end; NewRandomSequencer first value < 2^15, every thousandth one stepped through two wraps. viapacketizer: a fixed sequencer (start biased to the wrap) driven by a Packetizer through 1-12 Packetize/GeneratePadding calls of 1-8 packets: consecutive numbers on the packets, RollOverCount = zeros handed out after every call. packetizerconcurrent: a Packetizer and 1-8 goroutines draw 50-400 values each from one fixed sequencer at the same time (60 trials per plan, 10 under the race detector): every value unique, consecutive from the start, RollOverCount = zeros. randomconcurrent: 2-16 goroutines make the very first 1-100 calls each on one fresh random sequencer together (300 trials per plan, 40 under the race detector): values handed out are min..min+N-1 without duplicate or gap, increasing per goroutine, min < 2^15, RollOverCount 0. Non-trivial = history with overlapping operations of different goroutines and >=1 wrap, or a sweep that wraps; distinct = FNV-64 of the plan"
 
 func TestC07(t *testing.T) {
 	r := begin(t, "C07", "exploration", ruleC07)
